@@ -13,6 +13,7 @@ func init() { register("C28", C28) }
 
 func C28(c *Ctx) {
 	c.Note("atomic visibility across regions; lock resolution by readers after a client crash; retries across leader changes; idempotence of re-sent prewrites/commits")
+	clientOutcomeRules(c, "K1.client-outcome-is-the-transaction's")
 	const r1 = "K1.two-phase-order"
 	c.Rule(r1, "Client.TwoPhaseCommit: the primary region's prewrite precedes the secondary prewrites; every prewrite error returns before any commit; every prewrite site precedes every commit site (no path from a commit back to a prewrite); the primary commit precedes the secondary commits and its error returns before them; both secondary loops skip the primary region; the primary key's region must be among the mutation groups")
 	fn := c.Fn("raftstore/client", "Client.TwoPhaseCommit")
@@ -413,4 +414,97 @@ func mentionsLookupOf(v ssa.Value, idx ssa.Value, depth int) bool {
 		}
 	}
 	return false
+}
+
+// clientOutcomeRules (C28): three structural necessary conditions of the client's 2PC being
+// all-or-nothing to readers.  (a) TwoPhaseCommit requires the primary KEY among the mutations
+// (not merely some mutation in the primary's region) before it prewrites.  (b) Client.Scan does
+// not pass off a scan that was cut short by a lock as the region's content: the ScanResponse's
+// Error is examined before its Kvs are used.  (c) a waiting proposal is completed only by the
+// command it proposed: commandPipeline.applyEntries completes waiters through a function that
+// compares the applied command's region and proposing peer with the waiter's.
+func clientOutcomeRules(c *Ctx, rule string) {
+	c.Rule(rule, "Client.TwoPhaseCommit calls mutationHasPrimary (or an equivalent key comparison over the primary region's mutations) before the first prewrite and returns an error when it fails; Client.Scan reads ScanResponse.GetError before ScanResponse.GetKvs on every path; commandPipeline.applyEntries completes waiters only through a function that compares the header's region id and peer id with the waiter's")
+	if fn := c.Fn("raftstore/client", "Client.TwoPhaseCommit"); fn != nil {
+		hp := Calls(fn, false, Named("raftstore/client.mutationHasPrimary"))
+		pw := Calls(fn, false, Named("raftstore/client.(*Client).prewriteRegion"))
+		ok := len(hp) > 0 && len(pw) > 0
+		for _, p := range pw {
+			good := false
+			for _, h := range hp {
+				for e := range boolValueEdges(fn, h.Value(), true) {
+					if EdgeDominates(e[0], e[1], p.Block()) {
+						good = true
+					}
+				}
+			}
+			if !good {
+				ok = false
+			}
+		}
+		c.Decide(ok, rule, key(fn, "prewrite<-primary-key-among-mutations"), fn.Pos(), len(hp)+len(pw)+1, "the primary is one of the keys the transaction writes",
+			"TwoPhaseCommit prewrites although the primary key itself is not among the mutations (only its region receives some mutation): no lock or commit record ever exists for the primary, so after a lost secondary commit a reader resolves that secondary to rollback while another key of the transaction is committed")
+	}
+	if fn := c.Fn("raftstore/client", "Client.Scan"); fn != nil {
+		kvs := Calls(fn, false, Named("(*pb.ScanResponse).GetKvs"))
+		errs := Calls(fn, false, Named("(*pb.ScanResponse).GetError"))
+		ok := len(kvs) > 0
+		for _, k := range kvs {
+			if pre, _ := MustPrecede(fn, k.(ssa.Instruction), instrs(errs)); !pre {
+				ok = false
+			}
+		}
+		c.Decide(ok, rule, key(fn, "GetKvs<-GetError"), fn.Pos(), len(kvs)+len(errs)+1, "a scan stopped by a lock is reported, not returned as the region's content",
+			"Client.Scan uses the Kvs of a ScanResponse without looking at its Error: a scan cut short by a lock is taken for an exhausted region, and a snapshot read above a transaction's commit version returns the committed primary without the still-locked secondary (half a transaction)")
+	}
+	if fn := c.Fn("raftstore/store", "commandPipeline.applyEntries"); fn != nil {
+		// every completion reachable from applyEntries passes a comparison of region id and peer id
+		checks := func(f *ssa.Function) bool {
+			region, peer := false, false
+			AllInstrs(f, false, func(in ssa.Instruction) {
+				bo, ok := in.(*ssa.BinOp)
+				if !ok || (bo.Op != token.EQL && bo.Op != token.NEQ) {
+					return
+				}
+				for _, v := range []ssa.Value{bo.X, bo.Y} {
+					if call, isCall := Unwrap(v).(*ssa.Call); isCall {
+						switch FuncName(StaticFn(call.Common())) {
+						case "(*pb.CmdHeader).GetRegionId":
+							region = true
+						case "(*pb.CmdHeader).GetPeerId":
+							peer = true
+						}
+					}
+					if isFieldLoad(v, "pb.CmdHeader", "RegionId") {
+						region = true
+					}
+					if isFieldLoad(v, "pb.CmdHeader", "PeerId") {
+						peer = true
+					}
+				}
+			})
+			return region && peer
+		}
+		n, bad := 0, 0
+		AllInstrs(fn, false, func(in ssa.Instruction) {
+			ci, ok := in.(ssa.CallInstruction)
+			if !ok {
+				return
+			}
+			h := StaticFn(ci.Common())
+			if h == nil || h.Blocks == nil {
+				return
+			}
+			completes := FuncName(h) == "(*raftstore/store.commandPipeline).completeProposal" || len(Calls(h, false, Named("raftstore/store.(*commandPipeline).completeProposal"))) > 0
+			if !completes {
+				return
+			}
+			n++
+			if !(checks(h) || checks(fn)) {
+				bad++
+			}
+		})
+		c.Decide(n > 0 && bad == 0, rule, key(fn, "waiter-completed-by-its-own-command"), fn.Pos(), n+1, "an applied command completes a waiter only when request id, region and proposing peer match",
+			"applyEntries completes the waiter that has the applied command's request id without comparing region and proposing peer: request ids are a per-store counter, so a command of another store (after a leader change) or of another region with the same id acknowledges a proposal that was never applied – with that other command's response")
+	}
 }
